@@ -295,45 +295,21 @@ echo_result = _cls('echo_result', (
     (1, TType.STRUCT, 'nf', [NotFound, NotFound.thrift_spec], None, ),  # 1
 ))
 
-METHODS = ['ping', 'put', 'find', 'count', 'has', 'size', 'echo']
+METHODS = ['ping', 'put', 'find', 'count', 'has', 'size', 'echo']       # the service's OWN methods
+BASE = None                                                               # `extends`: the base service's module
 
 
-class Processor(Iface, TProcessor):
-    """the generated Processor: `process` dispatches on the name, `process_<m>` reads
-    `<m>_args`, calls the handler, fills `<m>_result` (success / the declared exception that
-    was raised), maps TApplicationException and any other exception to an EXCEPTION message"""
+def _process_fn(name, args_cls, result_cls):
+    """the generated `process_<name>`: reads `<name>_args`, calls the handler, fills
+    `<name>_result` (success / the declared exception that was raised), maps
+    TApplicationException and any other exception to an EXCEPTION message.  The classes are
+    those of the module that defines the method (a derived service's module has them for its
+    own methods only; inherited methods are processed by the base module's functions)."""
 
-    def __init__(self, handler):
-        self._handler = handler
-        self._processMap = dict((m, m) for m in METHODS)
-        self._on_message_begin = None
-
-    def on_message_begin(self, func):
-        self._on_message_begin = func
-
-    def process(self, iprot, oprot):
-        (name, type, seqid) = iprot.readMessageBegin()
-        if self._on_message_begin:
-            self._on_message_begin(name, type, seqid)
-        if name not in self._processMap:
-            iprot.skip(TType.STRUCT)
-            iprot.readMessageEnd()
-            x = TApplicationException(TApplicationException.UNKNOWN_METHOD, 'Unknown function %s' % (name))
-            oprot.writeMessageBegin(name, TMessageType.EXCEPTION, seqid)
-            x.write(oprot)
-            oprot.writeMessageEnd()
-            oprot.trans.flush()
-            return
-        else:
-            self._process_method(name, seqid, iprot, oprot)
-        return True
-
-    def _process_method(self, name, seqid, iprot, oprot):
-        g = globals()
-        args = g[name + '_args']()
+    def process_method(self, seqid, iprot, oprot):
+        args = args_cls()
         args.read(iprot)
         iprot.readMessageEnd()
-        result_cls = g[name + '_result']
         result = result_cls()
         spec = result_cls.thrift_spec
         has_success = bool(spec) and spec[0] is not None
@@ -363,3 +339,46 @@ class Processor(Iface, TProcessor):
         result.write(oprot)
         oprot.writeMessageEnd()
         oprot.trans.flush()
+    process_method.__name__ = 'process_' + name
+    return process_method
+
+
+def _process_request(self, iprot, oprot):
+    """the generated `Processor.process` (every generated Processor has its own copy)"""
+    (name, type, seqid) = iprot.readMessageBegin()
+    if self._on_message_begin:
+        self._on_message_begin(name, type, seqid)
+    if name not in self._processMap:
+        iprot.skip(TType.STRUCT)
+        iprot.readMessageEnd()
+        x = TApplicationException(TApplicationException.UNKNOWN_METHOD, 'Unknown function %s' % (name))
+        oprot.writeMessageBegin(name, TMessageType.EXCEPTION, seqid)
+        x.write(oprot)
+        oprot.writeMessageEnd()
+        oprot.trans.flush()
+        return
+    else:
+        self._processMap[name](self, seqid, iprot, oprot)
+    return True
+
+
+class Processor(Iface, TProcessor):
+    """the generated Processor: `process` dispatches on the name through `_processMap`
+    (name -> `Processor.process_<m>`)"""
+
+    def __init__(self, handler):
+        self._handler = handler
+        self._processMap = {}
+        for m in METHODS:
+            self._processMap[m] = getattr(Processor, 'process_' + m)
+        self._on_message_begin = None
+
+    def on_message_begin(self, func):
+        self._on_message_begin = func
+
+    process = _process_request
+
+
+for _m in METHODS:
+    setattr(Processor, 'process_' + _m, _process_fn(_m, globals()[_m + '_args'], globals()[_m + '_result']))
+del _m
